@@ -40,7 +40,8 @@ RULE = ("one case = one dataset evaluated under every scheme of the tier's list 
         "cycling through 6 element-name kinds, 18 schemes (the four families, multiples x2 x1/4 x3 x1/8192, four "
         "schemes proportional to a family on B only, six foreign schemes). thorough: R(3) m<=3, R(4) m<=2 (datasets of "
         "3 rankings and those over 4 names under a rotating window of 9 of the 36 schemes), 4000 samples under all 36 "
-        "schemes. Bounds n<=6, m<=5 keep distinct rational means distinct as floats. Non-trivial = "
+        "schemes; plus 14 (140) datasets of 3-4 ranking types with multiplicities up to 40 (up to 1500 for every fourth), whose "
+        "distinct means differ by as little as 1e-7 (still distinct as floats). Non-trivial = "
         "universe of >= 2 elements; distinct = distinct (dataset, scheme, variant).")
 SCOPE = {"quick": "all datasets n<=3 m<=2 (701) + 400 sampled n<=6 m<=5; 18 schemes; 2 variants",
          "thorough": "all datasets n<=3 m<=2 x 36 schemes; n<=3 m=3 (17.6k) and n=4 m<=2 (21.9k) x 9 rotating "
@@ -64,6 +65,20 @@ def gen_cases(tier, seed):
     rng = random.Random(seed * 15485863 + 12)
     kinds = list(D.NAME_KINDS)
     seen = set()
+    # many rankings: a few ranking types with large multiplicities, so that distinct means are close (differences down to
+    # 1/(m1*m2) ~ 1e-7): "tied exactly when the means are equal" must not be decided with a tolerance / after rounding
+    # means 5/28 and 7/39 (induced measure: 0 < 1 < 2 expected, the two means differ by 9e-4) ...
+    yield {"rankings": [[[1]], [[0], [1]], [[2]], [[0], [2]]], "mult": [23, 5, 32, 7], "schemes": si, "namekind": "canon"}
+    # ... 1999/4000 and 2001/4000, 1999/2000 and 2001/2000 (complete datasets, any accepted scheme)
+    yield {"rankings": [[[0], [1]], [[1], [0]]], "mult": [2001, 1999], "schemes": si, "namekind": "canon"}
+    yield {"rankings": [[[0], [1], [2]], [[1], [0], [2]], [[2], [0], [1]]], "mult": [1001, 999, 1], "schemes": si,
+           "namekind": "str"}
+    for i in range(12 if quick else 120):
+        n = rng.randint(3, 5)
+        base = D.random_dataset(rng, n, 4, complete=(i % 3 == 0), n_min=3)
+        big = i % 4 == 3
+        mult = [rng.randint(200, 1500) if big else rng.randint(1, 40) for _ in base]
+        yield {"rankings": base, "mult": mult, "schemes": si, "namekind": kinds[i % len(kinds)]}
     for i in range(400 if quick else 4000):
         d = D.random_dataset(rng, 6, 5, complete=(i % 4 == 0), n_min=2)
         kind = kinds[i % len(kinds)]
@@ -103,6 +118,8 @@ def check_case(case):
     from corankco.algorithms.borda.borda import BordaCount
     from corankco.algorithms.rank_aggregation_algorithm import ScoringSchemeNotHandledException
     canon_rankings = case["rankings"]                   # canonical ints 0..n-1
+    if case.get("mult"):                                # each ranking repeated mult[k] times
+        canon_rankings = [r for r, k in zip(canon_rankings, case["mult"]) for _ in range(k)]
     kind = case["namekind"]
     names = D.NAME_KINDS[kind](max(D.universe_of(canon_rankings)) + 1)
     rankings = D.rename(canon_rankings, names)
